@@ -1,6 +1,6 @@
 SPECIFICATION Spec
 CONSTANTS
-  Kinds = {"str", "arr", "bytes", "dict", "gen"}
+  Kinds = {"str", "arr", "bytes", "dict", "gen", "gen0"}
   MaxLit = 2
   Depth = 0
   Steps = {"map", "map2", "cat", "shift", "with", "without", "call"}
